@@ -52,6 +52,7 @@ def rule_wrappers(ctx: Ctx) -> None:
 
 
 KNOCKOUTS = [
+    Knockout("outcome-unused", CLIFF, sub_once("    tableau.phase[z_rows] = tableau.phase[z_rows] ^ int(outcome)\n", ""), "measure.outcome-used", "remove_qubit", on_fixed_only=True),
     Knockout("halves-foreign-size", CLIFF, sub_once("        phase_list2 = np.split(tab.phase, 2)", "        phase_list2 = [tab.phase[: tableau.n_qubits], tab.phase[tableau.n_qubits :]]"), "num.halves", "tab.phase"),
     Knockout("measure-rowset-restricted", CLIFF, sub_once("            non_zero_x = np.delete(non_zero_x, i)\n", "            non_zero_x = non_zero_x[non_zero_x >= n_qubits][1:]\n"), "measure.rowset", "row set"),
     Knockout("measure-outcome-parity", CLIFF, sub_once("        outcome = r_vector[2 * n_qubits]", "        outcome = int(np.sum(tableau.phase[non_zero_x[non_zero_x < n_qubits] + n_qubits]) % 2)"), "own.rowops", "arithmetic on phase"),
